@@ -117,6 +117,34 @@ Theorem libmol_no_number_lost : lmol_no_number_lost_stmt.
 Proof. exact LibmolSpec.lmol_no_number_lost. Qed.
 Print Assumptions libmol_no_number_lost.
 
+From BSE Require Import Model.Cp2k Proofs.Cp2kDefs Model.Cp2kEcp Proofs.Cp2kEcpDefs Model.Genbas Proofs.GenbasDefs Model.Molpro Proofs.MolproDefs Model.Demon2k Proofs.Demon2kDefs Model.Demon2kEcp Proofs.Demon2kEcpDefs.
+From BSE Require Proofs.Cp2kSpec Proofs.Cp2kEcpSpec Proofs.GenbasSpec Proofs.MolproSpec Proofs.Demon2kSpec Proofs.Demon2kEcpSpec.
+(* CP2K (whole file), CFOUR (electron part), Molpro (electron part: the zeros outside the printed range of a contraction are
+   legitimately left out), deMon2k (whole file) *)
+Theorem cp2k_no_number_lost : cp2k_no_number_lost_stmt.
+Proof. exact Cp2kSpec.cp2k_no_number_lost. Qed.
+Print Assumptions cp2k_no_number_lost.
+
+Theorem cp2k_ecp_no_number_lost : cp2k_ecp_no_number_lost_stmt.
+Proof. exact Cp2kEcpSpec.cp2k_ecp_no_number_lost. Qed.
+Print Assumptions cp2k_ecp_no_number_lost.
+
+Theorem cfour_no_number_lost : c4_no_number_lost_stmt.
+Proof. exact GenbasSpec.c4_no_number_lost. Qed.
+Print Assumptions cfour_no_number_lost.
+
+Theorem molpro_no_number_lost : mpro_no_number_lost_stmt.
+Proof. exact MolproSpec.mpro_no_number_lost. Qed.
+Print Assumptions molpro_no_number_lost.
+
+Theorem demon2k_no_number_lost : d2k_no_number_lost_stmt.
+Proof. exact Demon2kSpec.d2k_no_number_lost. Qed.
+Print Assumptions demon2k_no_number_lost.
+
+Theorem demon2k_ecp_no_number_lost : d2k_ecp_no_number_lost_stmt.
+Proof. exact Demon2kEcpSpec.d2k_ecp_no_number_lost. Qed.
+Print Assumptions demon2k_ecp_no_number_lost.
+
 (* the Gaussian94 ECP blocks: every gaussian exponent / coefficient (with the D marker the writer prints), every r exponent
    and the electron count is a token of the text *)
 From BSE Require Import Model.G94Ecp Proofs.G94EcpDefs.
